@@ -15,13 +15,16 @@ func init() {
 		Jobs: func(tier string) []registry.Job {
 			if tier == "thorough" {
 				return []registry.Job{
-					{Name: "eth-3o-gov", Spec: &Spec{Chains: []string{"eth"}, NOracle: 3, Gov: true}, Depth: 6, ShardDepth: 2},
+					{Name: "eth-3o-gov", Spec: &Spec{Chains: []string{"eth"}, NOracle: 3, Gov: true}, Depth: 5, ShardDepth: 2},
+					{Name: "eth-2o-governance", Spec: &Spec{Chains: []string{"eth"}, NOracle: 2, Gov: true, GovOnly: true}, Depth: 7, ShardDepth: 2},
 					{Name: "tron-2o", Spec: &Spec{Chains: []string{"tron"}, NOracle: 2}, Depth: 7, ShardDepth: 2},
 					{Name: "eth+bsc-2o", Spec: &Spec{Chains: []string{"eth", "bsc"}, NOracle: 2}, Depth: 6, ShardDepth: 2},
 				}
 			}
 			return []registry.Job{
-				{Name: "eth-2o-gov", Spec: &Spec{Chains: []string{"eth"}, NOracle: 2, Gov: true}, Depth: 5, ShardDepth: 2},
+				{Name: "eth-2o-obligations", Spec: &Spec{Chains: []string{"eth"}, NOracle: 2}, Depth: 5, ShardDepth: 2},
+				{Name: "eth-2o-governance", Spec: &Spec{Chains: []string{"eth"}, NOracle: 2, Gov: true, GovOnly: true}, Depth: 5, ShardDepth: 2},
+				{Name: "eth-2o-mixed", Spec: &Spec{Chains: []string{"eth"}, NOracle: 2, Gov: true}, Depth: 3, ShardDepth: 2},
 			}
 		},
 	})
